@@ -380,7 +380,7 @@ pub fn run(ctx: &mut Ctx) {
 	}
 	let max_digits = ctx.pick(40, 400);
 	if ctx.wants("N_isolated_numbers") {
-		let n = ctx.pick(300_000, 5_000_000);
+		let n = ctx.pick(600_000, 5_000_000);
 		let fam = Fam::new("N_isolated_numbers", &format!("proptest: one number per case: i32, scaled random digits (<= {max_digits} significant digits, magnitude 1e-340..1e300), decimals at/next to the exact midpoint of two adjacent doubles, layout thresholds and other specials, integers around 2^53/2^63/2^64/1e21, 17/21/26-digit spellings of random doubles; canonical text == reference (core's correctly rounded parser + ECMAScript Number::toString with closest/ties-to-even digit selection), and the parser's choice is re-validated with exact decimal arithmetic; non-trivial = > 17 significant digits or exponent notation"), false);
 		let fam = run_proptest(
 			ctx,
@@ -396,7 +396,7 @@ pub fn run(ctx: &mut Ctx) {
 		ctx.add(fam);
 	}
 	if ctx.wants("G_ijson_values") {
-		let n = ctx.pick(60_000, 600_000);
+		let n = ctx.pick(150_000, 600_000);
 		let fam = Fam::new("G_ijson_values", "proptest: I-JSON trees (no duplicate keys; keys biased to U+E000..U+FFFF vs supplementary-plane and the RFC's example keys; numbers from the isolated-number mix): canonicalize / canonicalize_with / Object::canonicalize(+_with) then compact_print == reference canonical form; non-trivial = an object whose UTF-16 key order differs from code-point order, or a number with > 17 digits / exponent notation", false);
 		let fam = run_proptest(
 			ctx,
